@@ -114,3 +114,65 @@ Proof.
   eapply insp_run_record_snapshots. exact Hrun.
 Qed.
 Print Assumptions C09_rules_on_real_dir.
+
+(* ---- ... and with the artifact-rule model (model/Rules.v, property C03) as the rule stage: tamper detection ----
+   "a final product whose hash differs from what the last step recorded fails verification": whenever the
+   verification accepts, every file f found in the directory by an inspection (its hashes h are those recorded
+   after the inspection's command) that the inspection's product rules protect - a rule
+   MATCH p WITH PRODUCTS FROM step, later a DISALLOW pd whose pattern matches f, and no other rule in front of
+   that DISALLOW able to consume f - is a product of the (verified, reduced) link of that step with EXACTLY the
+   same hashes.  A file whose content differs from the step's record therefore makes the verification fail
+   (C03_tampered_product_rejected is the rejection form on the rule stage alone).
+   Well-formedness (clean relative paths, no duplicate keys) is what C03_model_eq_spec needs. *)
+From IT Require Import model.Rules spec.RulesSpec proofs.RulesTamper.
+
+Theorem C09_protected_product_matches_step_record :
+  forall gm ignored H perm cmd_sem dump_link dir norm
+         vsig expiry_ok subst certs_ok load_all verify_thresholds retval_zero pbytes zero_key
+         fuel w path d layout_env keys step_name params inter s w' tr,
+    verify node vsig expiry_ok subst certs_ok load_all verify_thresholds (verify_artifacts gm)
+           (run_insp_record ignored H perm cmd_sem dump_link dir norm) retval_zero pbytes zero_key
+           (S fuel) w path d layout_env keys step_name params inter = (Ok s, w', tr) ->
+    exists layout reduced_links imeta,
+      Forall (fun i => exists wi l,
+                record_artifacts ignored H perm wi sha256_only [] norm false [dir] [] = Ok (ln_materials l) /\
+                record_artifacts ignored H perm (after_cmd cmd_sem wi (i_run i)) sha256_only [] norm false [dir] [] = Ok (ln_products l) /\
+                retval_zero l = true /\ ln_name l = i_name i) (l_inspect layout) /\
+      let meta := merge_steps reduced_links imeta in
+      (wf_meta meta -> wf_items (map insp_item (l_inspect layout)) ->
+       forall i li pre p step mid pd f h,
+         In i (l_inspect layout) -> alookup meta (i_name i) = Some li ->
+         Forall2 rule_shape (i_prods i) (pre ++ SMatch p [] Products [] step :: mid ++ [SDisallow pd]) ->
+         alookup (ln_products li) f = Some h -> gm pd f = true ->
+         Forall (fun r => inert gm meta (ln_materials li) (ln_products li) (ln_products li) r f) pre ->
+         Forall (fun r => inert gm meta (ln_materials li) (ln_products li) (ln_products li) r f) mid ->
+         exists dl hd, alookup meta step = Some dl /\ alookup (ln_products dl) f = Some hd /\ hash_equal h hd /\ gm p f = true).
+Proof.
+  intros gm ignored H perm cmd_sem dump_link dir norm vsig expiry_ok subst certs_ok load_all verify_thresholds
+         retval_zero pbytes zero_key fuel w path d layout_env keys step_name params inter s w' tr Hv.
+  apply C09_rules_on_real_dir in Hv as [layout [rl [imeta [Hsnap Hr]]]].
+  exists layout, rl, imeta. split; [exact Hsnap|]. cbv zeta.
+  intros Hwm Hwi i li pre p step mid pd f h Hin Hli Hsh Hf Hg Hpre Hmid.
+  eapply (model_protected_product_matches gm _ _ (i_name i) (i_mats i) (i_prods i) li pre p Products step mid pd f h Hwm Hwi Hr);
+    try eassumption.
+  change (i_name i, i_mats i, i_prods i) with (insp_item i). apply in_map. exact Hin.
+Qed.
+Print Assumptions C09_protected_product_matches_step_record.
+
+(* non-vacuity on the instantiated rule stage (glob of C17): the usual rule pair, a clean chain accepts, the same
+   chain with a final product of other content is rejected; the side conditions of the theorem hold for it *)
+From IT Require Import model.RulesInst.
+Example C09_tamper_example :
+  let h1 := [(bs "sha256", bs "aa")] in let h2 := [(bs "sha256", bs "bb")] in
+  let build := mkLink (bs "link") (bs "build") [] [(bs "foo.py", h1)] [] [] [] in
+  let insp := fun h => mkLink (bs "link") (bs "check") [(bs "foo.py", h)] [(bs "check.link", h1); (bs "foo.py", h)] [] [] [] in
+  let rules := [[bs "MATCH"; bs "*"; bs "WITH"; bs "PRODUCTS"; bs "FROM"; bs "build"]; [bs "ALLOW"; bs "*.link"]; [bs "DISALLOW"; bs "*"]] in
+  let items := [(bs "check", rules, rules)] in
+  verify_artifacts_go items [(bs "build", build); (bs "check", insp h1)] = Ok tt /\
+  verify_artifacts_go items [(bs "build", build); (bs "check", insp h2)] = Err err_disallow /\
+  Forall2 rule_shape rules ([] ++ SMatch (bs "*") [] Products [] (bs "build") :: [SAllow (bs "*.link")] ++ [SDisallow (bs "*")]) /\
+  gmatch_bool (bs "*") (bs "foo.py") = true /\ gmatch_bool (bs "*.link") (bs "foo.py") = false.
+Proof.
+  cbv zeta. split; [vm_compute; reflexivity|]. split; [vm_compute; reflexivity|]. split; [|split; vm_compute; reflexivity].
+  cbn [app]. repeat constructor; try (vm_compute; reflexivity).
+Qed.
